@@ -8,7 +8,8 @@ import build, zv
 ASSUMPTIONS = [
     "pthread mutex / condition variables behave as modelled (wait releases atomically; signal wakes >= 1 blocked waiter if any; spurious wake-ups possible)",
     "the OS scheduler is sampled (perturbed by seeded yields/sleeps), not enumerated; 'every schedule' is carried by the Lean theorems over the LTS",
-    "POOL_free is called when no other thread uses the pool (documented contract)",
+    "POOL_free is called when no thread other than the pool's own workers uses the pool; a job still running on a worker may post while POOL_free shuts the pool down "
+    "(pool.c provides for it: both POOL_add's wait loop and POOL_add_internal test the shutdown flag) - such a post is dropped and must not be reported as accepted",
 ]
 
 # scenario corpus: schedules forced with sleeps; they run first on every check
@@ -22,6 +23,8 @@ CORPUS = [
     ("resize 0 is refused", "pool 2 0\nclient resize:0 add:1 resize:3 add:2 resize:1 add:3 barrier join free\n"),
     ("shrink, then grow beyond the original capacity, jobs in flight at free", "pool 3 1\nclient resize:1 add:1 resize:4 add:2 add:3 add:4 add:5 free\nbody 2 sleep:80\nbody 3 sleep:80\nbody 4 sleep:80\n"),
     ("shrink then grow, idle pool", "pool 3 0\nclient resize:1 resize:4 free\n"),
+    ("a running job posts with tryAdd while POOL_free shuts the pool down (a dropped post must be answered 0)", "pool 1 2\nclient add:1 free\nbody 1 waitfree tryadd:2 tryadd:3\n"),
+    ("two jobs post (tryAdd and add) during POOL_free, a third one is still queued behind them", "pool 2 1\nclient add:1 add:2 tryadd:3 free\nbody 1 waitfree tryadd:4 add:5\nbody 2 tryadd:8 waitfree tryadd:6\nbody 4 tryadd:7\n"),
     ("shrink twice, grow, join, free", "pool 3 2\nclient resize:2 add:1 resize:1 add:2 resize:4 add:3 add:4 barrier join free\nbody 1 sleep:30\n"),
 ]
 
@@ -76,6 +79,44 @@ def gen_program(rng, thorough=False):
     return txt
 
 
+def gen_free_program(rng, thorough=False):
+    """family: POOL_free is entered while jobs are still running on the workers, and those jobs post follow-up work (tryAdd / add) during the
+    shutdown.  One client (the others would have to be joined first); once the first waiting job is posted the client only uses tryAdd, so it
+    can never block behind a job that waits for the free.  Every post answered 1 must have run by the time POOL_free returns."""
+    t = rng.randint(1, 4 if thorough else 3)
+    q = rng.randint(0, 3 if thorough else 2)
+    jid = [0]
+    def newjob():
+        jid[0] += 1
+        return jid[0]
+    ops, bodies = [], {}
+    for _ in range(rng.randint(0, 3)):                      # plain jobs first
+        j = newjob(); ops.append("add:%d" % j)
+        if rng.random() < 0.4:
+            bodies[j] = ["sleep:%d" % rng.randint(0, 2)]
+    waiters = [newjob()]
+    ops.append("add:%d" % waiters[0])
+    for _ in range(rng.randint(0, 2)):
+        j = newjob(); ops.append("tryadd:%d" % j)
+        if rng.random() < 0.6:
+            waiters.append(j)
+    if rng.random() < 0.5:
+        ops.append("sleep:%d" % rng.randint(0, 3))
+    ops.append("free")
+    for w in waiters:
+        b = []
+        if rng.random() < 0.3:
+            b.append("tryadd:%d" % newjob())                 # before the shutdown
+        b.append("waitfree")
+        for _ in range(rng.randint(1, 3)):
+            c = newjob()
+            b.append(("tryadd:%d" if rng.random() < 0.7 else "add:%d") % c)
+            if rng.random() < 0.3:
+                bodies[c] = ["tryadd:%d" % newjob()]
+        bodies[w] = b
+    return "pool %d %d\nclient %s\n" % (t, q, " ".join(ops)) + "".join("body %d %s\n" % (j, " ".join(o)) for j, o in sorted(bodies.items()))
+
+
 def run_one(exe, prog, seed, perturb, timeout=60):
     rc, out, err = zv.run([exe], prog + "run %d %d\n" % (seed, perturb), timeout=timeout)
     full = prog + out
@@ -104,7 +145,7 @@ def examine(ctx, name, prog, seed, perturb, exe, stats):
 
 def correspondence(ctx):
     exe = harness()
-    stats = dict(runs=0, sections=0, disagreements=[])
+    stats = dict(runs=0, sections=0, disagreements=[], families={})
     progs = set()
     # corpus first, several schedules each
     for name, prog in CORPUS:
@@ -114,9 +155,11 @@ def correspondence(ctx):
     n = 500 if ctx.quick() else 6000
     samples = []
     for i in range(n):
-        prog = gen_program(ctx.rng, not ctx.quick())
+        fam = "free during posts" if i % 7 == 3 else "random program"
+        prog = gen_free_program(ctx.rng, not ctx.quick()) if i % 7 == 3 else gen_program(ctx.rng, not ctx.quick())
         progs.add(prog)
-        ok = examine(ctx, "random program", prog, ctx.rng.randint(1, 10**6), 1, exe, stats)
+        stats["families"][fam] = stats["families"].get(fam, 0) + 1
+        ok = examine(ctx, fam, prog, ctx.rng.randint(1, 10**6), 1, exe, stats)
         if i < 2:
             samples.append(dict(program=prog.split("\n"), agreed=ok))
         if len(ctx.violations) >= 3 or len(stats["disagreements"]) >= 3 or ctx.elapsed() > (100 if ctx.quick() else 1500):
@@ -144,9 +187,10 @@ def correspondence(ctx):
             ctx.violation("critical section differs from the Pool LTS at trace line %d: impl=%r model=%r (scenario %s); no monitor failure found on this program under 30 more schedules"
                           % (d["first_diff"], d["impl"], d["model"], d["scenario"]), dict(kind="tie", correspondence="zvh_pool trace vs Model/Pool.lean", **d), no_input=True)
     return dict(evaluations=stats["runs"], distinct_nontrivial=len(progs),
-                rule="client programs from the grammar {add,tryAdd,joinJobs,resize,free} x jobs that post jobs, threads 1..3(4), queue 0..2(3), 1..3 client threads, "
+                rule="client programs from the grammar {add,tryAdd,joinJobs,resize,free} x jobs that post jobs, threads 1..3(4), queue 0..2(3), 1..3 client threads "
+                     "(every 7th program: POOL_free entered while running jobs post follow-up work with tryAdd / add during the shutdown), "
                      "each under a seeded perturbed schedule, plus a corpus of sleep-forced schedules; distinct = distinct program texts; every critical section of every run is replayed through the Lean LTS",
-                samples=samples, critical_sections_replayed=stats["sections"], trace_disagreements=len(stats["disagreements"]))
+                samples=samples, families=stats["families"], critical_sections_replayed=stats["sections"], trace_disagreements=len(stats["disagreements"]))
 
 
 def replay(ctx, data):
